@@ -134,12 +134,15 @@ def run(ctx):
                                                                       and "cancel" not in c.name)) and c.name not in ("cancel_live_orders", "cancel_live_orders_market")]
         ctx.check(len(sites) == 4, "sites", tag + "|count", ctx.loc(f), "4 placement sites (limit buy/sell, market buy/sell)", "%d placement sites" % len(sites))
         probs = []
+        extra_conditions = {}
         for s in (1, -1, 0):
             feas = []
             for c in sites:
-                ok_site = True
+                ok_site = c.b in q.cfg.reach_from(0)      # (a site behind a constant-false condition is not a site)
                 for a in c.guards:
                     if a[0] != "cmp":
+                        if not loop_exit(a) and not (a[0] == "variant" and a[2] == ("Some",)):
+                            extra_conditions.setdefault(c.b, (c, []))[1].append(a)
                         continue
                     lhs, rhs = a[2], a[3]
                     # draw < P
@@ -174,6 +177,15 @@ def run(ctx):
                 else:
                     ctx.check(ok_dir, "sign", key, ctx.loc(f), "%s: exactly the %s sites (limit and market) are feasible" % (label, "buy" if s == 1 else "sell"),
                               "%s: feasible sites have sides %s / kinds %s (expected only %s, limit and market)" % (label, sides, kinds, want))
+        # nothing but {per-trader loop, the Bernoulli draw, the sign of M} may decide a placement
+        from analysis.cfg import render_atom
+        for (c, atoms) in extra_conditions.values():
+            uniq = []
+            for a in atoms:
+                if a not in uniq:
+                    uniq.append(a)
+            ctx.bad("sign", "%s|extra-condition|%s" % (tag, c.name), c.loc(), "placement %s additionally depends on [%s]: the propensity to trade is no longer a function of |M| alone" % (
+                c.name, " && ".join(render_atom(a)[:80] for a in uniq)))
         # probabilities non-negative for either sign, with definite parity
         seen = []
         for c, P in probs:
@@ -185,6 +197,36 @@ def run(ctx):
                       "probability %s is non-negative and has the same sign for +M and -M (even in M)" % render(P)[:90],
                       "probability %s has sign %s for M > 0 but %s for M < 0" % (render(P)[:120], sorted(sp), sorted(sn)))
         ctx.check(len(seen) == 2, "parity", tag + "|census", ctx.loc(f), "two probabilities compared with draws (limit, market)", "%d probability expressions" % len(seen))
+        # first step (no last price yet): M = 0 and probability 0 – the only constant alternatives of M and of the probability
+        consts_M = [a for a in (M[1] if M[0] == "phi" else (M,)) if a[0] == "const"]
+        ctx.check(all(const_float(a) == 0.0 for a in consts_M) and len(consts_M) <= 1, "recurrence", tag + "|first-step", mw.loc(),
+                  "without a previous price the momentum is 0.0", "first-step momentum is %s" % [render(a) for a in consts_M])
+        for P in seen:
+            pm = [x for x in walk(P) if x[0] == "phi" and any(y[0] == "call" and y[4] == "tanh" for y in walk(x))]
+            for ph in pm[:1]:
+                cs = [a for a in ph[1] if a[0] == "const"]
+                ctx.check(all(const_float(a) == 0.0 for a in cs), "parity", "%s|first-step-prob" % tag, ctx.loc(f), "without a previous price the trading probability is 0.0",
+                          "first-step probability is %s" % [render(a) for a in cs])
+        # the documented magnitude: |demand * tanh(scale * M)| / n   (market), times order_ratio (limit)
+        def is_formula(e):
+            """abs(demand * tanh(scale*M) / n) in any association of the products"""
+            if not (e[0] == "call" and e[4] == "abs" and e[2]):
+                return False
+            x = e[2][0]
+            if not (x[0] == "bin" and x[1] == "Div" and fld(x[3], "n")):
+                return False
+            y = x[2]
+            if not (y[0] == "bin" and y[1] == "Mul"):
+                return False
+            for a_, b_ in ((y[2], y[3]), (y[3], y[2])):
+                if fld(a_, "demand") and b_[0] == "call" and b_[4] == "tanh":
+                    return True
+            return False
+        forms = []
+        for P in seen:
+            forms += [x for x in walk(P) if x[0] == "call" and x[4] == "abs"]
+        ctx.check(bool(forms) and all(is_formula(x) for x in forms), "parity", tag + "|formula", ctx.loc(f), "probability magnitude = |demand * tanh(scale * M) / n| as documented",
+                  "probability magnitude is %s (documented: |demand*tanh(scale*M)|/n)" % [render(x)[:100] for x in forms])
         # limit probability = order_ratio * market probability
         if len(seen) == 2:
             a, b = seen
@@ -208,6 +250,14 @@ def run(ctx):
         loops = q.body.loop_heads()
         ctx.check(len(loops) == 1 and all(q.cfg.in_loop(c.b) for c in sites), "sites", tag + "|per-trader", ctx.loc(f), "placements sit in the single per-trader loop")
         abstractions[tag] = [(c.name.replace("_market", ""), site_side(m, c)) for c in q.ordered(sites)]
+    for f in ctx.prog.fns.values():
+        if f.name == "new" and f.crate.name == "bourse_de" and (f.impl_adt or "").split("::")[-1] in ("MomentumAgent", "MomentumMarketAgent"):
+            r = m.q(f).ret()
+            fv = dict(zip(r[4], r[3])) if r[0] == "agg" else {}
+            f64s = [k for k, v in fv.items() if v[0] == "const" and "f64" in str(v[1])]
+            okc = bool(fv) and all(const_float(fv[k]) == 0.0 for k in f64s) and len(f64s) == 1 and any(v[0] == "agg" and v[2].endswith("Option::None") for v in fv.values())
+            ctx.check(okc, "recurrence", "ctor|" + f.impl_adt.split("::")[-1], ctx.loc(f), "a new agent starts with momentum 0.0 and no last price",
+                      "a new momentum agent starts with %s" % {k: render(fv[k]) for k in f64s})
     if len(abstractions) == 2:
         a, b = list(abstractions.values())
         ctx.check(a == b, "siblings", "single-vs-market", "-", "single- and multi-asset momentum agents place through the same sequence of sites %s" % a,
